@@ -505,7 +505,52 @@ def cubic_check(ctx, c, outs):
     return None
 
 
+SHAPE_STRATA = [(0,), (0, 4), (3, 0), (2, 0, 5), (1,), (1, 1), (4, 1), (2, 3, 2), (5, 2)]
+
+
+def shape_axis_check(ctx, c, outs):
+    """the colour array has the input's shape plus a colour axis — also for empty inputs of any dimension and for
+    size-1 axes — and entry [i] is the colour of direction / orientation [i] computed alone (both entry points)"""
+    from orix.plot import IPFColorKeyTSL
+    from orix.quaternion import Orientation
+    from orix.vector import Vector3d
+    key, G = key_for(c["k"])
+    shp = tuple(c["shape"])
+    rng = np.random.default_rng(c["seed"])
+    v = rng.normal(size=shp + (3,))
+    with warnings.catch_warnings():
+        warnings.simplefilter("ignore")
+        try:
+            rgb = key.direction2color(Vector3d(v))
+        except Exception as e:
+            return f"{G.name}: direction2color of directions with shape {shp} raises {type(e).__name__}: {e}"
+        if rgb.shape != shp + (3,):
+            return f"{G.name}: direction2color of directions with shape {shp} has shape {rgb.shape}, expected {shp + (3,)}"
+        q = rng.normal(size=shp + (4,))
+        if q.size:
+            q /= np.linalg.norm(q, axis=-1, keepdims=True)
+        ipf = IPFColorKeyTSL(G, Vector3d(np.asarray(c["direction"], float)))
+        try:
+            orgb = ipf.orientation2color(Orientation(q, symmetry=G))
+        except Exception as e:
+            return f"{G.name}: orientation2color of orientations with shape {shp} raises {type(e).__name__}: {e}"
+        if orgb.shape != shp + (3,):
+            return f"{G.name}: orientation2color of orientations with shape {shp} has shape {orgb.shape}, expected {shp + (3,)}"
+        for ix in np.ndindex(*shp):
+            one = key.direction2color(Vector3d(v[ix].reshape(1, 3)))[0]
+            if off_boundary(c["k"], v[ix]) and np.abs(one - rgb[ix]).max() > TOL_RGB:
+                return (f"{G.name}: entry {ix} of the colour array of directions with shape {shp} is {rgb[ix].tolist()} but direction "
+                        f"{v[ix].tolist()} alone gets {one.tolist()}")
+            oone = ipf.orientation2color(Orientation(q[ix].reshape(1, 4), symmetry=G))[0]
+            h = (Orientation(q[ix].reshape(1, 4), symmetry=G) * Vector3d(np.asarray(c["direction"], float))).data.reshape(3)
+            if off_boundary(c["k"], h) and np.abs(oone - orgb[ix]).max() > TOL_RGB:
+                return (f"{G.name}: entry {ix} of the colour array of orientations with shape {shp} is {orgb[ix].tolist()} but "
+                        f"orientation {q[ix].tolist()} alone gets {oone.tolist()}")
+    return None
+
+
 SITES = {
+    "shape_axis": sites.Site("shape_axis", "prop", shape_axis_check),
     "colour_arith": sites.Site("colour_arith", "corr", hsl_check, hsl_lines),
     "direction_colour": sites.Site("direction_colour", "prop", direction_check),
     "orientation_colour": sites.Site("orientation_colour", "prop", orientation_check),
@@ -540,6 +585,13 @@ def generate(ctx, status):
         c = {"k": k, "name": G.name, "label": f"laue({G.name})", "v": vs, "phase": "first"}
         yield "recolour", c
         again.append(dict(c, phase="again", used_before=list(range(len(S._groups)))))
+    for k, G in enumerate(S._groups):
+        for j, shp in enumerate(SHAPE_STRATA):
+            if ctx.tier == "quick" and (k + j) % 3:
+                continue
+            ctx.count(f"shape_axis/{'empty' if 0 in shp else 'nonempty'}", ("shp", k, shp), nontrivial=True)
+            yield "shape_axis", {"k": k, "name": G.name, "shape": list(shp), "seed": int(rng.integers(1 << 30)),
+                                 "direction": [[0, 0, 1], [1, 0, 0], [1, 1, 1]][(k + j) % 3]}
     for k, G in enumerate(S._groups):
         Gl, fs, nrm, m = c07.sector_data(k, "laue")
         for v, tag in c07.directions(rng, nrm, per):
